@@ -311,8 +311,8 @@ class extract_visitor(NodeVisitor):
             if it.optional_vars:
                 for nn, _idx in get_indexes_for_target(it.optional_vars, [], []):
                     name = nn  # type: ast.Name # type: ignore[assignment]
-                    # bound right after its context expression: later items of the same statement see it
-                    self.flow.add_name(AssignedName(name.id, get_expr_end(it.context_expr), np(name), node))
+                    # bound where the target stands: later items of the same statement see it
+                    self.flow.add_name(AssignedName(name.id, np(it.optional_vars), np(name), node))
 
         self.generic_visit(node)
 
